@@ -41,7 +41,7 @@ chk('C09', 'model_checking',
     'RemoveOverlaps.tla states what removeoverlaps and the scan-line generators must deliver: no pair overlapping in both axes, sizes unchanged, borders restored, fixed rectangles '
     '(pairwise disjoint at entry) displaced < 1% of the average size; generated constraint sets acyclic and -- by difference-constraint theory, longest paths in the constraint DAG -- '
     'forcing a separation of at least the half-sizes sum for every pair that overlaps on the other axis (necessary and sufficient). TLC enumerates every multiset of 2 rectangles on a '
-    '4x4 (quick) / 6x6 (thorough) grid and of 3 on a 3x3 / 4x4 grid for replay (all fixed subsets x thirdPass, some with borders) and judges the recorded results of those and of seeded sets up to 30 rectangles.',
+    '4x4 (quick) / 6x6 (thorough) grid and of 3 on a 3x3 / 4x4 grid for replay (all fixed subsets x thirdPass, some with borders) and judges the recorded results of those and of seeded sets up to 30 rectangles, and the results (no overlap, sizes, borders) of sets of 100..300 (quick) / 100..400 (thorough) rectangles.',
     'Output observed on a 2^-20 lattice. F14 / F20 (fixed rectangles moved through chains) are known findings recognised from axis-tight contact chains in the output.',
     'TLA+ declarative specification (difference-constraint theory); TLC-enumerated rectangle sets replayed; record validation', '4/C09')
 
@@ -49,7 +49,7 @@ chk('C05', 'model_checking',
     'OrthoPath.tla is a unit-step path model on the integer grid (a step is blocked iff its midpoint is strictly inside a rectangle; direction masks restrict first/last step). '
     'B2: every recorded raw route must be a behaviour of that model (ends, exact axis-parallelism, freedom of every unit step, masks). B3: TLC searches the Hanan grid for a route '
     'cheaper (length + P*bends, cost computed by the specification) than the implementation\'s; a hit is a concrete cheaper route. Scenes: TLC-enumerated sets of <=2 separated rectangles '
-    'on the even lattice, endpoints on the odd lattice, P in {1,3,10,50}, masks {all, single, opposite pairs}. Bends.tla: all 128 entries of the real Avoid::bends() are refuted-or-not against '
+    'on the even lattice, endpoints on the odd lattice, P in {1,3,10,50} and {0.001, 0.008, 0.05, 0.5} (costs then counted in thousandths), masks {all, single, opposite pairs}. Bends.tla: all 128 entries of the real Avoid::bends() are refuted-or-not against '
     'the free-plane bend model (admissibility).',
     'One connector per router (other connectors\' endpoints are not obstacles in the statement). With direction restrictions the oracle is "no cheaper route on the Hanan grid". '
     'F22 (direction-restricted endpoints give non-minimal routes) is a known finding.',
@@ -67,7 +67,7 @@ chk('C03', 'model_checking',
     'RouteValid.tla judges every displayed route (after nudging, with buffer, both modes): at least two points, starts/ends at the attachments, orthogonal segments axis-parallel, and no segment meets '
     'the open interior of a shape not containing an endpoint -- decided exactly by the separating-axis theorem with orientation tests on the 2^-10 lattice, with a 2-unit tolerance that can only miss shallow '
     'penetrations. The antecedent "an obstacle-free path exists" is decided by TLC reachability in PolyPath.tla for every suspicious record. Scenes: TLC-enumerated sets of <=2 rectangles / convex polygons '
-    '(touching and collinear sides included) and seeded random scenes (<=8 shapes, <=6 connectors, buffer 0|2, all nudging option combinations, ends inside shapes).',
+    '(touching and collinear sides included) and seeded random scenes (<=8 shapes, <=6 connectors, buffer 0|2, all nudging option combinations, ends inside shapes), every chain of three touching rectangles of the enumerated family in every insertion order, and rows A|B|C of butted rectangles whose outer corners lie inside opposite sides of the middle one.',
     'Known findings: F13 (option nudgeOrthogonalSegmentsConnectedToShapes moves free endpoints), F4, F23 (mitred buffer polygon at acute corners), F11 (nudging assertion).',
     'TLA+ declarative route-validity specification (separating-axis predicate); record validation; TLC reachability for the antecedent', '4/C03')
 
@@ -116,7 +116,7 @@ chk('C18', 'model_checking',
 chk('C19', 'model_checking',
     'Peel.tla: peeling as a nondeterministic process (strip any node of degree one); TLC shows confluence -- every maximal run ends in the 2-core -- for every simple connected graph on 5 (quick) / 6 (thorough) '
     'nodes and every stripping order, enumerates those graphs for replay, and judges the decomposition the library returns (core = that unique 2-core; trees acyclic, connected, sharing only their roots with the '
-    'core; every edge in exactly one part), connected components (partition of nodes and edges) and symmetric tree layouts (no two nodes on one point) for those and seeded random graphs up to 60 nodes. '
+    'core; every edge in exactly one part), connected components (partition of nodes and edges) and symmetric tree layouts (no two nodes on one point, no two node boxes overlapping; uniform and mixed narrow/wide node sizes, all four growth directions; bushy trees with isomorphic sibling subtrees) for those and seeded random graphs up to 60 nodes. '
     'Planar.tla states what OrthoPlanariser::planarise() must return for an orthogonally routed graph: original nodes present and in place, every edge an axis-parallel segment between two nodes, no two edges '
     'meeting except in a common end node, every original edge still a chain through new nodes only, and the set of unit steps covered by the planar edges equal to that covered by the routes; TLC enumerates '
     'the routed graphs of a 3x3 grid (straight and L routes) for replay and judges those and seeded random routed graphs (<=40 nodes, straight/L/Z routes, crossings and overlapping stretches).',
@@ -127,8 +127,8 @@ chk('C07', 'model_checking',
     'Compound.tla gives each compound constraint type its documented meaning over rectangle centres on the 1e-4 lattice (separation, alignment with offsets, boundary as "a separating line exists", '
     'multi-separation and distribution over alignment guides, fixed-relative offsets) and judges every recorded layout run: every constraint not reported through the unsatisfiable-constraint lists holds, '
     'sizes unchanged, all coordinates finite. Runs: seeded graphs (edgeless, disconnected, coincident nodes), satisfiable and contradictory mixes in both dimensions, overlap avoidance, neighbour stress, '
-    'makeFeasible on/off, both layout classes; a run that does not terminate is a violation.',
-    'fixPos() and page boundaries are weighted preferences, not asserted. F31 (makeFeasible does not terminate) is a known finding.',
+    'makeFeasible on/off, both layout classes; a run that does not terminate is a violation. makeFeasible() alone is judged where nothing needs reporting: separations without a positive cycle (any overlap setting), and -- without overlap avoidance -- separations, equalities and alignments whose difference-constraint graph has no positive cycle (redundantly constrained pairs, chains through a third node).',
+    'fixPos() and page boundaries are weighted preferences, not asserted. F31 (makeFeasible did not terminate) was repaired (6e1feea); F36 (run() leaves an unreported constraint violated) and F52 (makeFeasible() drops a feasible equality/alignment silently) are known findings.',
     'TLA+ declarative constraint semantics; record validation of layout runs', '4/C07')
 chk('C08', 'model_checking',
     'Same specification module: with overlap avoidance on, makeFeasible()+run() and nothing reported, no non-exempt pair of node rectangles overlaps by more than 1e-3 in both axes, member bounding boxes of '
@@ -147,7 +147,7 @@ chk('C20', 'model_checking',
 chk('C13', 'model_checking',
     'Topology.tla judges every state recorded after every TopologyConstraints::solve() of axis-alternating layout steps (the sequence ColaTopologyAddon::moveTo performs): nodes do not overlap, no segment '
     'meets the interior of a node other than its end nodes (separating-axis test on the 1/16 lattice), paths keep their end nodes, every bend sits on a corner of its node; and for every single-axis step the '
-    'number of crossings of each edge with each node\'s centre line on either side of the centre is unchanged -- which is exactly what pulling an edge through a node would flip.',
+    'number of crossings of each edge with each node\'s centre line on either side of the centre is unchanged -- which is exactly what pulling an edge through a node would flip. After the drag, one node (mostly the dragged one, whose corners now carry bends) is resized through topology::applyResizes and the resulting state is judged by the state clauses.',
     'Straight initial edges that clear all other nodes; one node dragged with weight 10000; 4..9 nodes. Motion inside one solve() is not observed.',
     'TLA+ state invariants + single-axis step property; record validation of solver steps', '4/C13')
 chk('C14', 'model_checking',
@@ -155,6 +155,6 @@ chk('C14', 'model_checking',
     'segments from one end node to the other (within the per-side node padding 0.25*IEL/2) and clear of every third node, and every separation constraint compiled from the returned SepMatrix '
     '(SepPair::generateSeparationConstraint, meaning as in SepCo.tla) satisfied by the returned centres. The Logger seam supplies the last logged state of the planar graph P, which the spec uses to '
     'tell a stale constraint of the core from a constraint the returned positions were solved under.',
-    'Seeded random connected simple graphs of 2..14 (quick) / 2..25 (thorough) nodes in the shapes the property lists, catalogue node sizes, random start positions, 128 option vectors (ACA|chains, near-alignment, convex trees, aspect preference, preferred tree growth direction). '
+    'Seeded random connected simple graphs of 2..14 (quick) / 2..25 (thorough) nodes in the shapes the property lists, catalogue node sizes, plus trees with isomorphic sibling subtrees and narrow/wide nodes mixed (30 against 200), random start positions, 128 option vectors (ACA|chains, near-alignment, convex trees, aspect preference, preferred tree growth direction). '
     'Runs that leave by std::runtime_error ("No feasible expansions", "Infeasible collateral tree sep") return no drawing and are counted, not judged. Tolerance 2/64. Phase-by-phase invariants are not checked.',
     'TLA+ postcondition over recorded doHOLA results; Logger-seam state of the planar graph', '4/C14')
